@@ -106,3 +106,178 @@ func describeHandle(h ssa.Value) string {
 	}
 	return h.Name()
 }
+
+// ---------------------------------------------------------------------------
+// Tier 2: inside pkg/blobstore/buffer (R04.2, R16.2, R15.4)
+
+// Types whose resources are released by dynamic reference counting; their
+// consuming methods are decided by dedicated rules instead.
+var tier2ExemptTypes = map[string]string{
+	"multiplexedChunkReader": "the underlying reader is closed by the last of several consumers (dynamic count, decided by R15.4)",
+	"validatedReaderBuffer":  "clones share the ReaderAt through an atomic clone count (decided by R15.4)",
+}
+
+// Functions that read from a handle they are given without taking ownership.
+var tier2Borrowing = map[string]string{
+	"discardFromChunkReader": "reads a prefix from the ChunkReader; the caller keeps and closes it",
+}
+
+func init() {
+	register(&Rule{
+		ID: "R04.2", Props: []string{"C04", "C16", "C15"}, Engine: "linear (go/ssa typestate, tier 2: receiver fields as handles)",
+		Text: "inside pkg/blobstore/buffer every Buffer, ChunkReader, io.ReadCloser and ErrorHandler that a function receives as a parameter or obtains from a call is consumed exactly once on every path (Buffer: one of its consuming methods; ChunkReader / ReadCloser: Close; ErrorHandler: Done; or handed on); in every consuming method of a type that wraps such values (decorators, validating and error-handling readers) each owned field is closed / discarded / Done / handed on exactly once on every path; a stream clone (casClonedBuffer) leaves its clone group exactly once on every path of each consuming method",
+		Floor: 60, MustExist: false,
+		Run: runR042,
+	})
+}
+
+func runR042(c *Ctx) {
+	bt := c.LookupType(bufferRel, "Buffer")
+	cr := c.LookupType(bufferRel, "ChunkReader")
+	eh := c.LookupType(bufferRel, "ErrorHandler")
+	var rc types.Type
+	if io := c.ByPath["io"]; io != nil {
+		if o := io.Types.Scope().Lookup("ReadCloser"); o != nil {
+			rc = o.Type()
+		}
+	}
+	if bt == nil || cr == nil || eh == nil || rc == nil {
+		c.Broken("Buffer / ChunkReader / ErrorHandler / io.ReadCloser not found")
+		return
+	}
+	isHandle := func(t types.Type) bool {
+		return types.Identical(t, bt) || types.Identical(t, cr) || types.Identical(t, eh) || types.Identical(t, rc)
+	}
+	consumingNames := map[string]bool{"Close": true, "Done": true}
+	for k := range bufferConsuming {
+		consumingNames[k] = true
+	}
+	implementsAny := func(n *types.Named) (buf, chunk, closer, handler bool) {
+		for _, t := range []types.Type{n, types.NewPointer(n)} {
+			buf = buf || types.Implements(t, bt.Underlying().(*types.Interface))
+			chunk = chunk || types.Implements(t, cr.Underlying().(*types.Interface))
+			closer = closer || types.Implements(t, rc.Underlying().(*types.Interface))
+			handler = handler || types.Implements(t, eh.Underlying().(*types.Interface))
+		}
+		return
+	}
+	isConsumingMethodOf := func(fn *ssa.Function) (*types.Named, bool) {
+		o, ok := fn.Object().(*types.Func)
+		if !ok {
+			return nil, false
+		}
+		n := recvNamed(o)
+		if n == nil {
+			return nil, false
+		}
+		buf, chunk, closer, handler := implementsAny(n)
+		switch {
+		case buf && bufferConsuming[fn.Name()]:
+			return n, true
+		case (chunk || closer) && fn.Name() == "Close":
+			return n, true
+		case handler && fn.Name() == "Done":
+			return n, true
+		}
+		return n, false
+	}
+	spec := &LinearSpec{
+		IsHandleType:    isHandle,
+		ConsumingMethod: func(m *types.Func) bool { return m != nil && consumingNames[m.Name()] },
+		ParamsOwned:     true,
+		ParamsBorrowed: func(fn *ssa.Function) bool {
+			if _, ok := tier2Borrowing[fn.Name()]; ok {
+				c.Exception(fn.Name(), tier2Borrowing[fn.Name()])
+				return true
+			}
+			// non-consuming methods (Read, OnError, GetSizeBytes …) and test helpers do not own parameters of handle type
+			return false
+		},
+		BorrowingCallee: func(callee *ssa.Function, cc *ssa.CallCommon) bool {
+			_, ok := tier2Borrowing[callee.Name()]
+			return ok
+		},
+		RecvFieldsOwned: func(fn *ssa.Function) []*types.Var {
+			n, _ := isConsumingMethodOf(fn)
+			if n == nil {
+				return nil
+			}
+			switch fn.Name() {
+			case "GetSizeBytes", "Read", "OnError", "ReadAt":
+				// non-consuming operations borrow the fields (ReadAt of a Buffer is consuming and handled below)
+				if fn.Name() != "ReadAt" {
+					return nil
+				}
+			}
+			if why, ex := tier2ExemptTypes[n.Obj().Name()]; ex {
+				c.Exception(n.Obj().Name(), why)
+				return nil
+			}
+			if n.Obj().Name() == "casClonedBuffer" {
+				return nil
+			}
+			st, ok := n.Underlying().(*types.Struct)
+			if !ok {
+				return nil
+			}
+			var out []*types.Var
+			for i := 0; i < st.NumFields(); i++ {
+				if isHandle(st.Field(i).Type()) {
+					out = append(out, st.Field(i))
+				}
+			}
+			return out
+		},
+		SelfHandle: func(fn *ssa.Function) bool {
+			n, _ := isConsumingMethodOf(fn)
+			if n == nil || n.Obj().Name() != "casClonedBuffer" {
+				return false
+			}
+			switch fn.Name() {
+			case "CloneStream", "toChunkReader", "GetSizeBytes":
+				return false
+			}
+			return true
+		},
+		SelfConsumer: func(callee *ssa.Function) bool { return callee.Name() == "toChunkReader" },
+		IsEntry: func(fn *ssa.Function) bool {
+			_, consuming := isConsumingMethodOf(fn)
+			return consuming
+		},
+		ConditionalTransfer: func(cc *ssa.CallCommon) bool {
+			return cc.IsInvoke() && cc.Method.Name() == "applyErrorHandler"
+		},
+		ReturnKeeps: func(fn *ssa.Function, r *ssa.Return, h ssa.Value) bool {
+			if fn.Name() != "applyErrorHandler" || len(r.Results) != 2 || !isBoolConst(r.Results[1], true) {
+				return false
+			}
+			return types.Identical(h.Type(), eh)
+		},
+		UntrackedResult: func(callee *ssa.Function) bool {
+			if callee.Name() == "newMultiplexedChunkReader" {
+				c.Exception("newMultiplexedChunkReader", "its result is shared by all consumers of a stream clone and released by the last one (dynamic count, decided by R15.4)")
+				return true
+			}
+			return false
+		},
+	}
+	la := newLinear(c.Program, spec)
+	for _, fn := range c.Funcs {
+		if !inBufferPkg(fn) {
+			continue
+		}
+		r := la.analyze(fn)
+		if r.handles == 0 && len(r.reports) == 0 {
+			continue
+		}
+		name := FuncName(fn)
+		if len(r.reports) == 0 {
+			c.Pass(name, "handles", c.Pos(fn.Pos()), fmt.Sprintf("%d handle(s), %d consumption site(s): consumed exactly once on every path", r.handles, r.consumes))
+			continue
+		}
+		for _, rep := range r.reports {
+			site := rep.kind + ":" + describeHandle(rep.h)
+			c.Fail(name, site, c.Pos(rep.at), fmt.Sprintf("%s: %s (obtained at %s): %s", rep.kind, describeHandle(rep.h), c.Pos(rep.def), rep.descr))
+		}
+	}
+}
